@@ -7,7 +7,7 @@ extra = sys.argv[3] if len(sys.argv) > 3 else ""
 import os
 prevs = [f"/verif/seeded/{pid}{suf}/meta.json" for suf in ("", "b", "c", "d", "e", "f", "g", "h", "i", "j")]
 prevs = [q for q in prevs if os.path.exists(q)]
-if prevs and any(f"/mut{k}/" in wt for k in range(2, 10)):
+if prevs and any(f"/mut{k}/" in wt for k in range(2, 30)):
     if "/mut2/" in wt:
         prevs = prevs[:1]
     extra += "\nEarlier volunteers already produced the following changes for the same property:\n"
